@@ -263,6 +263,19 @@ PROPS['C18'] = {
 }
 
 
+def _split_refcells(props):
+    for pid in ('C04', 'C05', 'C20'):
+        parts = []
+        for part in props[pid]['parts']:
+            if part['src'] == 'harness/dispatch.cpp':
+                a = dict(part); a['defs'] = list(part.get('defs', [])) + ['VERIF_NO_REFCELLS']
+                b = dict(part); b['defs'] = list(part.get('defs', [])) + ['VERIF_ONLY_REFCELLS']
+                parts += [a, b]
+            else:
+                parts.append(part)
+        props[pid]['parts'] = parts
+
+
 def _c20_group(name):
     # C20/<program set>/<policy configuration...>; pool units: C20/pool/<Type>/<threading>/mem<XX>; dispatch cells: the whole name
     parts = name.split('/')
@@ -295,3 +308,5 @@ PROPS['C20'] = {
     'cross_config': _c20_group,
     'deadline': {'quick': 300, 'thorough': 2400},
 }
+
+_split_refcells(PROPS)
